@@ -162,7 +162,18 @@ def run(ctx):
                     exp = impl.evaluate(fresh, p.copy(), r.copy(), result_all=True)
                     a, b = canon_out(out), canon_out(exp)
                     if not opts["result_all"] and not isinstance(out, tuple):
-                        # result_all=False computes lazily: force the same attributes
+                        # result_all=False computes lazily: WHAT has been computed (the reported dictionary) must not depend on the
+                        # logging / timing options either -- compared with a fresh evaluator called with all of them off
+                        plain = impl.evaluate(impl.make_evaluator(cfgs[i]), p.copy(), r.copy(), result_all=False, save_group_times=False,
+                                              log_times=False, verbose=False)
+                        if not isinstance(plain, tuple):
+                            ka = {g: sorted(res.to_dict().keys()) for g, (res, _) in out.items()}
+                            kb = {g: sorted(res.to_dict().keys()) for g, (res, _) in plain.items()}
+                            if ka != kb:
+                                ctx.violation("with result_all=False the set of reported metrics depends on the logging / timing options",
+                                              {"cfg": jcfg(cfgs[i]), "pred": p, "ref": r, "opts": opts, "reported_keys": ka, "reported_keys_plain": kb,
+                                               "lazy_keys": True})
+                        # ... then force the same attributes
                         for g, (res, _) in out.items():
                             with np.errstate(all="ignore"):
                                 res.calculate_all()
@@ -264,6 +275,22 @@ def replay(path):
         print(json.dumps(d)[:1500])
         print("replay: this history is regenerated from the seed; re-run ./check C15 with the same VERIF_SEED")
         return 1
+    if d.get("lazy_keys"):
+        pred, ref = common.arr_from_json(d["pred"]), common.arr_from_json(d["ref"])
+        c = dict(d["cfg"])
+        if c.get("groups_spec"):
+            from harness.props.c12 import groups_from_spec
+            c["groups"] = groups_from_spec({n: tuple(v) for n, v in c["groups_spec"].items()})
+        ev = impl.make_evaluator(c)
+        if c.get("sgt"):
+            ev.set_log_group_times(True)
+        out = impl.evaluate(ev, pred.copy(), ref.copy(), **d["opts"])
+        plain = impl.evaluate(impl.make_evaluator(c), pred.copy(), ref.copy(), result_all=False, save_group_times=False, log_times=False, verbose=False)
+        ka = {g: sorted(res.to_dict().keys()) for g, (res, _) in out.items()}
+        kb = {g: sorted(res.to_dict().keys()) for g, (res, _) in plain.items()}
+        print("options:", d["opts"], "\nreported keys:", ka, "\nwith all logging / timing options off:", kb)
+        print("DIFFER" if ka != kb else "same")
+        return 1 if ka != kb else 0
     if "serial" in d and "pool" in d:
         # serial vs multiprocessing pool (vs the process confined to one cpu): redo the comparison on the recorded input
         pred, ref = common.arr_from_json(d["pred"]), common.arr_from_json(d["ref"])
